@@ -136,4 +136,18 @@ CHECKS = {
           "max-rows-per-segment in {default,2,3,5} to get multi-segment files; process-kill semantics.",
   "technique": "TLA+ spec (Replace.tla) model-checked by TLC; crash-image replay of real reorganisations; recorded fs-event traces validated by TLC (TraceReplace.tla)",
  },
+ "C04": {
+  "text": "TLC exhaustively checks View.tla (which layers a query captures under the snapshot lock, the per-measurement flushed flag, "
+          "file-list swap and reference counts before physical removal) for ViewComplete / NoDupLayers / NoRemoveWhileRef and confirms the "
+          "mutation seeds are caught; a randomised concurrent driver (1-3 writers, 1-3 readers, flusher, compaction/merge triggers, close at "
+          "the end or in the middle, on a fresh or a just re-opened shard) records the client-visible history of a real shard and TLC "
+          "validates every history against TraceView.tla: each returned cell value must be one the cell could hold during the query (so every "
+          "write acknowledged before the query began is included, nothing invented, nothing already overwritten), no cell missing, reads of "
+          "one client monotone. Deadlocks (watchdog + goroutine dump), process crashes and duplicate rows are reported directly.",
+  "design_ref": "DESIGN.md section 5 C04",
+  "note": "schedules are sampled on the code side; each cell has one writer; series created before the concurrent phase; queries overlapping "
+          "the close are only required to terminate; the driver reads the shard object directly (in process). Symptoms of the open finding "
+          "F-C04-1 are attributed only in runs that start on a re-opened shard (the reload window) or in the directed reproduction.",
+  "technique": "TLA+ spec (View.tla) model-checked by TLC; client-visible histories recorded from a concurrent driver on the real shard validated by TLC (TraceView.tla)",
+ },
 }
